@@ -1068,6 +1068,10 @@ impl<E: Effect> Environment<E> {
             Event::EffectRequest { process_id, effect } => {
                 self.handle_effect_request(process_id, effect)
             }
+            Event::ProcessTerminated { process_id } => {
+                self.cleanup_process_resources(process_id);
+                Ok(())
+            }
             Event::_Phantom(_) => {
                 // This variant is never actually used, only for maintaining generics
                 unreachable!("_Phantom variant should never be constructed")
@@ -1222,10 +1226,11 @@ impl<E: Effect> Environment<E> {
         self.process_router.insert(new_pid, worker_id);
 
         // Transfer ownership of any resources in captures or argument to the new process
+        let mut transferred = false;
         for capture in &captures {
-            self.transfer_resource_ownership(capture, new_pid);
+            transferred |= self.transfer_resource_ownership(capture, new_pid);
         }
-        self.transfer_resource_ownership(&argument, new_pid);
+        transferred |= self.transfer_resource_ownership(&argument, new_pid);
 
         // Spawn process on chosen worker with function, captures, and argument
         self.workers[worker_id]
@@ -1237,6 +1242,9 @@ impl<E: Effect> Environment<E> {
                 heap_data: heap.clone(),
             })
             .map_err(|e| EnvironmentError::WorkerCommunication(e.to_string()))?;
+        if transferred {
+            self.watch_resource_owner(new_pid)?;
+        }
 
         // Notify caller
         let caller_worker = self
@@ -1255,29 +1263,44 @@ impl<E: Effect> Environment<E> {
         Ok(())
     }
 
-    /// Recursively transfer ownership of all resources in a value to a target process
-    fn transfer_resource_ownership(&mut self, value: &Value, new_owner: ProcessId) {
+    /// Recursively transfer ownership of all resources in a value to a target process.
+    /// Returns whether any resource changed hands.
+    fn transfer_resource_ownership(&mut self, value: &Value, new_owner: ProcessId) -> bool {
         match value {
             Value::Resource(resource_id, _) => {
                 // Only a resource that is currently registered changes hands. A stale handle
                 // (its resource was already closed when its owner terminated) must not be
                 // re-registered, or the recipient's cleanup would close the resource a second time.
-                if let Some(owner) = self.resource_ownership.get_mut(resource_id) {
-                    *owner = new_owner;
+                match self.resource_ownership.get_mut(resource_id) {
+                    Some(owner) => {
+                        *owner = new_owner;
+                        true
+                    }
+                    None => false,
                 }
             }
-            Value::Tuple(_, fields) => {
-                for field in fields.iter() {
-                    self.transfer_resource_ownership(field, new_owner);
-                }
-            }
-            Value::Function(_, captures) => {
-                for capture in captures.iter() {
-                    self.transfer_resource_ownership(capture, new_owner);
-                }
-            }
-            _ => {} // Other value types don't contain resources
+            Value::Tuple(_, fields) => fields.iter().fold(false, |transferred, field| {
+                self.transfer_resource_ownership(field, new_owner) || transferred
+            }),
+            Value::Function(_, captures) => captures.iter().fold(false, |transferred, capture| {
+                self.transfer_resource_ownership(capture, new_owner) || transferred
+            }),
+            _ => false, // Other value types don't contain resources
         }
+    }
+
+    /// Ask the worker of a process that has come to own a resource to report its termination,
+    /// which is when its resources are closed (see `cleanup_process_resources`). The worker
+    /// answers at once for a process that has terminated already, so a resource that reaches a
+    /// process too late is closed as well.
+    fn watch_resource_owner(&mut self, owner: ProcessId) -> Result<(), EnvironmentError> {
+        let worker_id = self
+            .process_router
+            .get(&owner)
+            .ok_or(EnvironmentError::ProcessNotFound(owner))?;
+        self.workers[*worker_id]
+            .send(Command::WatchProcess { process_id: owner })
+            .map_err(|e| EnvironmentError::WorkerCommunication(e.to_string()))
     }
 
     fn handle_deliver(
@@ -1287,7 +1310,7 @@ impl<E: Effect> Environment<E> {
         heap: Vec<Vec<u8>>,
     ) -> Result<(), EnvironmentError> {
         // Transfer ownership of any resources in the message to the target process
-        self.transfer_resource_ownership(&message, target);
+        let transferred = self.transfer_resource_ownership(&message, target);
 
         let worker_id = self
             .process_router
@@ -1301,6 +1324,9 @@ impl<E: Effect> Environment<E> {
                 heap,
             })
             .map_err(|e| EnvironmentError::WorkerCommunication(e.to_string()))?;
+        if transferred {
+            self.watch_resource_owner(target)?;
+        }
 
         Ok(())
     }
@@ -1800,6 +1826,7 @@ impl<E: Effect> Environment<E> {
             && let Ok((Value::Resource(rid, _), _)) = &result
         {
             self.resource_ownership.insert(*rid, process_id);
+            self.watch_resource_owner(process_id)?;
         }
 
         // Unwrap the result and heap data
